@@ -342,6 +342,11 @@ class HamiltonianDisplacementMove(
             atoms.set_array("momenta", old_momenta, float, (3,))
             Context.revert_state(context)
 
+            try:
+                atoms.calc.atoms.positions = old_positions.copy()  # type: ignore[try-attr]
+            except AttributeError:
+                pass
+
         return False
 
     def __call__(self, context: HContextType) -> bool:
